@@ -35,9 +35,13 @@ structure Decoder (δ : Type) where
   /-- one run of `decomperss`: state, unconsumed input, bit-buffer level, "stream already ended" -/
   run  : δ → List UInt8 → Nat → Bool → DecOut δ
 
-/-- the decoder takes no more than it is given, and bits only come from bytes it took -/
+/-- the decoder takes no more than it is given, bits only come from bytes it took, and once the final block
+    has been decoded a further run touches neither the input nor the bit buffer (decomperss's loop is skipped) -/
 def Decoder.Sane {δ} (D : Decoder δ) : Prop :=
-  ∀ st input bl e, (D.run st input bl e).k ≤ input.length ∧ (D.run st input bl e).bitsLen ≤ bl + 8 * (D.run st input bl e).k
+  ∀ st input bl e,
+    (D.run st input bl e).k ≤ input.length ∧
+    (D.run st input bl e).bitsLen ≤ bl + 8 * (D.run st input bl e).k ∧
+    (e = true → (D.run st input bl e).k = 0 ∧ (D.run st input bl e).bitsLen = bl)
 
 structure RState (δ : Type) where
   bio      : Bufio
@@ -53,12 +57,13 @@ structure RState (δ : Type) where
   fed      : List UInt8 := []    -- ghost
   gone     : List UInt8 := []    -- ghost
 
-def RState.init {δ} (D : Decoder δ) (bio : Bufio) : RState δ := { bio := bio, dec := D.init }
+/-- NewReader: the Reader starts counting what it consumes from the bufio.Reader it is given -/
+def RState.init {δ} (D : Decoder δ) (bio : Bufio) : RState δ := { bio := { bio with taken := 0 }, dec := D.init }
 
 /-- decompressor.Reset: new source, cleared error/eof/peek state, pending output and history dropped,
     inflate state reset (after the repair of D6) -/
 def RState.reset {δ} (D : Decoder δ) (_r : RState δ) (bio : Bufio) : RState δ :=
-  { bio := bio, input := none, peekSize := 0, bitsLen := 0, pending := [], err := none, eof := false,
+  { bio := { bio with taken := 0 }, input := none, peekSize := 0, bitsLen := 0, pending := [], err := none, eof := false,
     ended := false, finished := false, dec := D.init, fed := [], gone := [] }
 
 def RState.inputLen {δ} (r : RState δ) : Nat := r.input.getD 0
@@ -73,49 +78,59 @@ inductive StepRes
   | blocked
   deriving DecidableEq, Repr
 
+inductive Acq (δ : Type)
+  | blocked
+  | failed (r : RState δ) (e : RE)
+  | ready (r : RState δ)
+
+/-- input acquisition at the top of step(): only when no input slice is held and the stream has not ended -/
+def acquire {δ} (r : RState δ) : Acq δ :=
+  if r.input = none ∧ ¬ r.ended then
+    match r.bio.peek (r.bitsLen / 8 + 1) r.bio.fuel with
+    | .blocked => .blocked
+    | .got b e _ =>
+      match e with
+      | some (.fail id) => .failed { r with bio := b } (.src (.fail id))
+      | _ =>
+        .ready { r with bio := b, eof := decide (e = some .eof), peekSize := b.buf.length,
+                        input := some (b.buf.length - r.bitsLen / 8) }
+  else .ready r
+
+/-- the unconsumed part of the peeked window -/
+def RState.inBytes {δ} (r : RState δ) : List UInt8 :=
+  match r.input with
+  | none => []
+  | some n => (r.bio.buf.drop (r.peekSize - n)).take n
+
+/-- one decoder run and the bookkeeping that follows it in step() -/
+def afterDecode {δ} (D : Decoder δ) (r1 : RState δ) : RState δ × Option RE :=
+  let o := D.run r1.dec r1.inBytes r1.bitsLen r1.ended
+  let r2 : RState δ := { r1 with
+    dec := o.st, pending := o.out, bitsLen := o.bitsLen, ended := o.ended,
+    input := r1.input.map (· - o.k), fed := r1.fed ++ r1.inBytes.take o.k }
+  if o.status = .invalid ∨ (o.status = .needInput ∧ r2.eof) then
+    ({ r2.discardConsumed with input := none, peekSize := 0 },
+     some (if o.status = .needInput then .unexpectedEOF else .corrupt))
+  else
+    let finishNow := r2.ended ∧ r2.pending = []
+    let r3 : RState δ := if finishNow then { r2 with finished := true } else r2
+    let e : Option RE := if finishNow then some .eof else none
+    if r3.inputLen = 0 ∨ r3.finished then
+      let r4 := r3.discardConsumed
+      if o.status = .outFull ∧ ¬ r4.finished then
+        ({ r4 with input := some 0, peekSize := r4.bitsLen / 8 }, e)
+      else ({ r4 with input := none, peekSize := 0 }, e)
+    else (r3, e)
+
 def step {δ} (D : Decoder δ) (r : RState δ) : RState δ × StepRes :=
   if r.finished then (r, .err (some .eof))
   else
-    -- input acquisition
-    let acq : Option (RState δ) × Option StepRes :=
-      if r.input = none ∧ ¬ r.ended then
-        let retained := r.bitsLen / 8
-        match r.bio.peek (retained + 1) r.bio.fuel with
-        | .blocked => (none, some .blocked)
-        | .got b e _ =>
-          match e with
-          | some (.fail id) => (some { r with bio := b }, some (.err (some (.src (.fail id)))))
-          | _ =>
-            (some { r with bio := b, eof := decide (e = some .eof), peekSize := b.buf.length,
-                           input := some (b.buf.length - retained) }, none)
-      else (some r, none)
-    match acq with
-    | (_, some .blocked) => (r, .blocked)
-    | (some r0, some res) => (r0, res)
-    | (none, _) => (r, .blocked)
-    | (some r1, none) =>
-      -- decode
-      let inBytes := match r1.input with
-        | none => []
-        | some n => r1.bio.buf.drop (r1.peekSize - n)
-      let o := D.run r1.dec inBytes r1.bitsLen r1.ended
-      let r2 : RState δ := { r1 with
-        dec := o.st, pending := o.out, bitsLen := o.bitsLen, ended := o.ended,
-        input := r1.input.map (· - o.k), fed := r1.fed ++ inBytes.take o.k }
-      if o.status = .invalid ∨ (o.status = .needInput ∧ r2.eof) then
-        let r3 := r2.discardConsumed
-        ({ r3 with input := none, peekSize := 0 },
-         .err (some (if o.status = .needInput then .unexpectedEOF else .corrupt)))
-      else
-        let finishNow := r2.ended ∧ r2.pending = []
-        let r3 : RState δ := if finishNow then { r2 with finished := true } else r2
-        let e : Option RE := if finishNow then some .eof else none
-        if r3.inputLen = 0 ∨ r3.finished then
-          let r4 := r3.discardConsumed
-          if o.status = .outFull ∧ ¬ r4.finished then
-            ({ r4 with input := some 0, peekSize := r4.bitsLen / 8 }, .err e)
-          else ({ r4 with input := none, peekSize := 0 }, .err e)
-        else (r3, .err e)
+    match acquire r with
+    | .blocked => (r, .blocked)
+    | .failed r0 e => (r0, .err (some e))
+    | .ready r1 =>
+      let (r2, e) := afterDecode D r1
+      (r2, .err e)
 
 inductive ReadRes
   | data (bs : List UInt8) (err : Option RE)
